@@ -283,7 +283,14 @@ def op_has_argument(opcode: int, opc) -> bool:
     """
     Return True if `opcode` instruction has an operand.
     """
-    return opcode >= opc.HAVE_ARGUMENT
+    if opcode < opc.HAVE_ARGUMENT:
+        return False
+    # From 3.13 on HAVE_ARGUMENT no longer separates the two groups exactly:
+    # WITH_EXCEPT_START is numbered HAVE_ARGUMENT but takes no operand, and
+    # CPython's own dis goes by the "hasarg" list instead.
+    if opc.version_tuple >= (3, 13) and hasattr(opc, "hasarg"):
+        return opcode in opc.hasarg
+    return True
 
 
 def pretty_flags(flags, is_pypy=False):
